@@ -257,6 +257,26 @@ def dense_move(psi, dims, i, f):
     return psi.reshape(dims).transpose(order).reshape(-1), [dims[p] for p in order]
 
 
+def dense_compress_around(psi, dims, i, k):
+    """reference for compress_site(i, max_bond=k, cutoff=0) from the centre i: optimal
+    rank-k truncation of the bond (i-1|i), then of the bond (i|i+1) of the result.
+    Returns (state, unique) - unique is False when a cut falls on (nearly) degenerate
+    Schmidt values, where the optimal truncation is not unique."""
+    L = len(dims)
+    cur, unique = psi, True
+    for cut in (i, i + 1):
+        if not 0 < cut < L:
+            continue
+        M = cur.reshape(int(np.prod(dims[:cut])), -1)
+        u, sv, vh = np.linalg.svd(M, full_matrices=False)
+        if len(sv) > k:
+            if sv[k - 1] - sv[k] < 1e-6 * max(sv[0], 1e-300):
+                unique = False
+            M = (u[:, :k] * sv[:k]) @ vh[:k]
+        cur = M.reshape(-1)
+    return cur, unique
+
+
 def close(a, b, scale=1.0, tol=TOL_VAL):
     a, b = np.asarray(a), np.asarray(b)
     if a.shape != b.shape:
@@ -344,7 +364,8 @@ def gen_op(rng, L, p_bad):
         api = rng.choice(["singular_values", "schmidt_values", "entropy", "schmidt_gap", "bipartite_schmidt_state"])
         return {"kind": "singvals", "api": api, "i": rng.randint(1, L - 1), "seed": seed}
     if kind == "compress_site":
-        return {"kind": "compress_site", "i": rng.randrange(L), "canonize": True, "opts": gen_opts(rng), "seed": seed}
+        opts = gen_opts(rng) if rng.random() < 0.5 else {"max_bond": rng.randint(1, 3), "cutoff": 0.0}
+        return {"kind": "compress_site", "i": rng.randrange(L), "canonize": True, "opts": opts, "seed": seed}
     if kind == "swap":
         i, j = rng.sample(range(L), 2)
         return {"kind": "swap", "i": i, "j": j, "absorb": rng.choice(["left", "right", "left", "right", None, "both"]), "opts": gen_opts(rng), "seed": seed}
@@ -747,6 +768,18 @@ class Driver:
         elif k == "compress_site":
             mps.compress_site(op["i"], canonize=op["canonize"], info=info, **opts)
             preserved = exact and op["canonize"]
+            if small and op["canonize"] and opts.get("cutoff", None) == 0.0 and "max_bond" in opts:
+                # the truncation itself: from the centre it must be the optimal one for the two bonds in turn
+                ref, unique = dense_compress_around(psi0, dims, op["i"], opts["max_bond"])
+                if unique:
+                    got = dense_of(self.mps)
+                    e_got, e_ref = float(np.linalg.norm(got - psi0)), float(np.linalg.norm(ref - psi0))
+                    self.ctx.bump("compress_site_optimality_checked")
+                    if not close(got, ref, scale=float(np.abs(psi0).max())):
+                        self.ctx.violation("compress_site:truncates_wrong_factor",
+                                           f"compress_site({op['i']}, max_bond={opts['max_bond']}, cutoff=0) truncation error {e_got:.6g}, "
+                                           f"optimal for the two bonds in turn {e_ref:.6g} (norm of the state {nrm2 ** 0.5:.4g})",
+                                           self.payload({"error": e_got, "optimal": e_ref}))
         elif k == "swap":
             mps.swap_sites_with_compress_(op["i"], op["j"], info=info, **({} if op["absorb"] is None else {"absorb": op["absorb"]}), **opts)
             if small and exact:
@@ -974,9 +1007,15 @@ def findings_stream(ctx):
         [{"kind": "measure", "site": 5, "remove": True, "renorm": False, "inplace": True, "seed": 5}],
         [{"kind": "measure", "site": 5, "remove": True, "renorm": True, "inplace": False, "seed": 5}],
     ]
+    # compress_site must truncate from the centre (fix 3d1294d6; before it the error here was ~3x the optimal one)
+    wide = {"L": 6, "bonds": [2, 4, 8, 4, 2], "phys": [2] * 6, "complex": True, "prep": "raw", "seed": 3, "record": "unset"}
+    specs = [dict(base)] * len(scripts)
+    for i, k in ((3, 2), (2, 1), (0, 1), (5, 1), (4, 3)):
+        scripts.append([{"kind": "compress_site", "i": i, "canonize": True, "opts": {"max_bond": k, "cutoff": 0.0}, "seed": 6}])
+        specs.append(dict(wide))
     cases, drivers = [], {}
     for n, ops in enumerate(scripts, 1):
-        D = run_history(ctx, dict(base), ops=ops, hid=1000 + n)
+        D = run_history(ctx, specs[n - 1], ops=ops, hid=1000 + n)
         ctx.bump("directed_finding_scripts")
         if D.steps:
             cases.append((n, D.coq_case()))
